@@ -193,6 +193,9 @@ def _sgrid(ctx, P):
         "ROMS-like names": [("xi_rho", "xi_psi"), ("eta_rho", "eta_psi"), ("s_rho", "s_w")],
         "node names contained in cell names": [("xc", "x"), ("yc", "y"), ("zc", "z")],
         "cell names contained in node names": [("x", "x_node"), ("y", "y_node"), ("z", "z_node")],
+        # dimension names are free: also the words the attribute itself is written with (only the bracketed group is padding syntax)
+        "node dimensions called like padding words": [("xc", "low"), ("yc", "none"), ("zc", "both")],
+        "cell dimensions called like words of the attribute": [("padding", "x_n"), ("high", "y_n"), ("none", "z_n")],
         "names that are the tail of the next axis' names": [("rho", "psi"), ("eta_rho", "eta_psi"), ("s_eta_rho", "s_eta_psi")],
     }
     n = 0
